@@ -11,6 +11,9 @@ NOTE = ("Trusted base: the Go type checker (go/types), go/packages loading of /r
 
 # id -> (technique, level text, design ref)
 CLAIMS = {
+ "C47": ("forbidden-operation scan and controlling-condition analysis of the two sampling functions (SSA) + switch-arm row coherence + error-edge termination",
+         "Structural necessary conditions: the random value is never reduced by remainder/division/multiplication, a sample is accepted only under random <= max with fresh bytes per iteration, zero modulo is rejected, and each type arm uses its own value type and width.",
+         "DESIGN.md §4 C47"),
  "C21": ("who-may-call of checked/wrapping NumberValue arithmetic inside the range iterator and membership functions + controlling-condition check of the construction guards",
          "Structural necessary conditions: iteration and membership use comparisons only (the two arithmetic calls of the reviewed tree are recorded as known findings with their failing inputs) and construction rejects zero and diverging steps.",
          "DESIGN.md §4 C21"),
